@@ -10,7 +10,7 @@ from ..cfg import cfg_of
 from ..index import AnalysisError, function_stmts, walk_no_nested
 from ..preds import PredError, decision_table
 from ..roles import callable_list_loops, reason_codes_in
-from ..util import callee_last, calls_in, conjuncts, kw, txt, enclosing_stmt
+from ..util import callee_last, calls_in, kw, path_condition, show_condition, txt
 
 EXPLANATION = (
     "Static sibling-agreement analysis (ast, CFG guards, symbolic normal forms; nothing executed). (R1) every "
@@ -107,32 +107,19 @@ def r3_signatures(ctx):
 
 
 # ---- R4 ------------------------------------------------------------------------
-_MISSING = re.compile(r"^pd\.isna\((.+)\)$")
+SCHEMA_NAMES = {"schema", "col_schema", "column_info", "is_schema_col", "s", "col"}
 
 
-def _norm_atom(e, pol):
-    t = txt(e)
-    m = _MISSING.match(t)
-    if m:
-        t = f"missing({m.group(1)})"
-    m2 = re.match(r"^(.+) is None$", t)
-    if m2:
-        t = f"missing({m2.group(1)})"
-    m3 = re.match(r"^(.+) is not None$", t)
-    if m3:
-        t, pol = f"missing({m3.group(1)})", not pol
-    t = t.replace("get_lazyframe_column_names(check_obj)", "check_obj.columns")
-    return ("" if pol else "not ") + t
+def _keep(text, node):
+    return bool({n.id for n in ast.walk(node) if isinstance(n, ast.Name)} & SCHEMA_NAMES)
 
 
-def _schema_atoms(cfg, nid):
-    out = set()
-    for test, pol in cfg.guards(nid):
-        for e, p in conjuncts(test, pol):
-            names = {n.id for n in ast.walk(e) if isinstance(n, ast.Name)}
-            if names & {"schema", "col_schema", "column_info", "is_schema_col"}:
-                out.add(_norm_atom(e, p))
-    return out
+def _rename(text):
+    return text.replace("get_lazyframe_column_names(check_obj)", "check_obj.columns")
+
+
+def _schema_cond(cfg, nid):
+    return path_condition(cfg, nid, keep=_keep, rename=_rename)
 
 
 def _effect_sites(f):
@@ -167,18 +154,18 @@ def r4_twins(ctx):
         ctx.touched(fa, fb)
         ca, cb = cfg_of(fa.node), cfg_of(fb.node)
         sa = {}
-        for kind, key, s in _effect_sites(fa):
-            sa.setdefault((kind, key), []).append(_schema_atoms(ca, ca.node_of(s).id))
+        for kind, key, st in _effect_sites(fa):
+            sa.setdefault((kind, key), []).append(_schema_cond(ca, ca.node_of(st).id))
         sb = {}
-        for kind, key, s in _effect_sites(fb):
-            sb.setdefault((kind, key), []).append(_schema_atoms(cb, cb.node_of(s).id))
+        for kind, key, st in _effect_sites(fb):
+            sb.setdefault((kind, key), []).append(_schema_cond(cb, cb.node_of(st).id))
         for k in sorted(set(sa) | set(sb)):
-            ga = sorted(sorted(x) for x in sa.get(k, []))
-            gb = sorted(sorted(x) for x in sb.get(k, []))
+            ga = sorted(sa.get(k, []), key=repr)
+            gb = sorted(sb.get(k, []), key=repr)
             ok = ga == gb
             ctx.ob("R4", fb, f"{fname}: {k[0]} {k[1]}", ok,
-                   f"same conditions on schema attributes in both backends: {ga}" if ok else
-                   f"pandas reaches it under {ga}, polars under {gb}")
+                   f"same condition on schema attributes in both backends: {[show_condition(x) for x in ga]}" if ok else
+                   f"pandas reaches it under {[show_condition(x) for x in ga]}, polars under {[show_condition(x) for x in gb]}")
     # top-level guards that disable the stage entirely (early `return check_obj`)
     for fname_a, fname_b in (("add_missing_columns", "add_missing_columns"), ("strict_filter_columns", "strict_filter_columns")):
         fa, fb = pdc.lookup(fname_a), plc.lookup(fname_b)
